@@ -39,6 +39,12 @@ class ndarray(list):
     def tolist(self):
         return list(self)
 
+    @property
+    def flags(self):
+        """settable flags object (`a.flags.writeable = False`); write protection itself is not modelled - the code under analysis only reads index arrays"""
+        import types
+        return self.__dict__.setdefault('_flags', types.SimpleNamespace(writeable=True, owndata=True, c_contiguous=True, f_contiguous=True, aligned=True))
+
     class _DType:
         kind = 'i'
         name = 'int64'
